@@ -2,7 +2,7 @@
 # Model of `storage/snapshots` `Store` acknowledgement bookkeeping (C12)
 
 One `step` per public call of `snapshots.Store`; every call is one `stateMu` critical section in the code
-(`CreateCheckpoint`, `CreateSavepoint`, `AddOperatorSnapshot`, `AddSourceSnapshot`), so the sequential
+(`CreateCheckpoint`, `CreateSavepoint`, `AddOperatorSnapshot`, `AddSourceSnapshot`, `RegisterSourceSplitter`), so the sequential
 composition of steps is every schedule of concurrent callers. The per-node completion maps of
 `jobSnapshot` (`map[string]bool`) are association lists with distinct keys; node names are numbers
 (the harness maps `op<k>`/`sr<k>`). `Snap.srAcks` is a history variable: the accepted source-runner
@@ -65,6 +65,7 @@ inductive Call where
   | savepoint (ops srs : List Nat)
   | opAck (op cp tag : Nat)
   | srAck (sr cp : Nat) (splits : List Nat)
+  | redeploy                -- RegisterSourceSplitter: a new deployment begins
 deriving Repr, DecidableEq
 
 inductive Res where
@@ -131,6 +132,15 @@ def step (s : St) : Call → St × Res × Option Snap
       else match addSr p sr splits with
         | none => (s, .errUnknown, none)
         | some p' => finishIfComplete s p'
+  | .redeploy =>
+    -- `RegisterSourceSplitter`: the splitter is replaced and a pending snapshot is abandoned;
+    -- the id counter is untouched (an abandoned id is never handed out again)
+    ({ s with pending := none }, .ok, none)
+
+/-- checkpoints abandoned by redeployments while running `calls` from `s` -/
+def abandoned : St → List Call → Nat
+  | _, [] => 0
+  | s, c :: cs => (if c = .redeploy ∧ s.pending.isSome then 1 else 0) + abandoned (step s c).1 cs
 
 /-- snapshots handed to the publisher while running `calls` from `s`, in order -/
 def published : St → List Call → List Snap
